@@ -233,7 +233,7 @@ fn c14_units(tier: Tier) -> Vec<Unit> {
                 }
                 ctx.st.cases += (hi - lo) as u64;
             }
-            other => ctx.custom_violation("c14", format!("MACHINERY: console child failed: {:?}", other.map(|o| o.status)), json!({}), json!(null), json!(null)),
+            other => ctx.machinery(format!("console child failed: {:?}", other.map(|o| o.status))),
         }
         if chunk == 0 {
             ctx.sample(case_json(&scn[70]));
